@@ -182,31 +182,62 @@ func (w *World) VerifyFunc(fn *ssa.Function, mode *Mode, prop string) (x *X, err
 	}
 	rpc, rst, vals := fr.run(pc, st)
 	if ct != nil && mode.Functional && !rpc.IsFalse() {
-		post := fr.rootEnvAt(rst, entry)
 		rnames := ct.Results
 		if len(rnames) == 0 {
 			rnames = resultNames(fn.Signature)
 		}
-		post.bindResults(rnames, vals)
-		x.postEnv = post
+		// the merged post-state serves --eval and the replay machinery
+		postM := fr.rootEnvAt(rst, entry)
+		postM.bindResults(rnames, vals)
+		x.postEnv = postM
+		// Postconditions are proved per return statement, each in its own state: no
+		// merging of the return paths, so every query stays small.
 		for _, en := range ct.Ensures {
 			if !x.active(en) || ct.Trusted {
 				continue
-			}
-			var t *Term
-			if e := safeEval(func() { t = post.Bool(en.Expr) }); e != nil {
-				return x, fmt.Errorf("%s: ensures %q: %v", x.root, en.Src, e)
 			}
 			lbl := en.Label
 			if lbl == "" {
 				lbl = truncate(en.Src, 48)
 			}
-			o := x.oblige("ensures", lbl, w.pos(fn.Pos()), rpc, t)
-			o.Extra = map[string]string{"ensures": en.Src}
+			for _, rp := range fr.rets {
+				if rp.pc.IsFalse() {
+					continue
+				}
+				post := fr.rootEnvAt(rp.state, entry)
+				rv := make([]Value, len(rp.vals))
+				for k := range rp.vals {
+					rv[k] = Value{T: fn.Signature.Results().At(k).Type(), L: rp.vals[k].L}
+				}
+				post.bindResults(rnames, rv)
+				var t *Term
+				if e := safeEval(func() { t = post.Bool(en.Expr) }); e != nil {
+					return x, fmt.Errorf("%s: ensures %q: %v", x.root, en.Src, e)
+				}
+				o := x.oblige("ensures", lbl, rp.pos, rp.pc, t)
+				o.Extra = map[string]string{"ensures": en.Src}
+				// later ensures clauses may build on earlier ones (each is proved on its own)
+				x.assume(rp.pc, t, "earlier ensures clause "+lbl)
+			}
 		}
 	}
 	x.retPC = rpc
 	x.splitConjuncts()
+	if mode.Functional && ct != nil && (len(ct.Ensures) > 0 || len(ct.LoopInv) > 0 || len(ct.AtCalls) > 0) {
+		// vacuity guard: every return statement must be reachable under the contract's
+		// assumptions (requires, loop invariants, callee postconditions) unless the
+		// contract declares it dead ("unreachable return@k", k in source order)
+		sort.SliceStable(x.rootRets, func(i, j int) bool { return x.rootRets[i].tpos < x.rootRets[j].tpos })
+		for k, rp := range x.rootRets {
+			lbl := fmt.Sprintf("return@%d", k+1)
+			if contains(ct.Unreachable, lbl) {
+				continue
+			}
+			o := &Obligation{Name: x.root + "#cover[" + lbl + "]", Kind: "vacuity", Func: x.root, Pos: rp.pos, Guard: rp.pc, Cond: B.False(), NAssum: len(x.assums)}
+			o.Extra = map[string]string{"what": "this return statement is unreachable under the contract's assumptions: they are contradictory on this path (proofs about it would be vacuous) or the statement is dead code (declare it: unreachable " + lbl + ")"}
+			x.obligs = append(x.obligs, o)
+		}
+	}
 	if mode.Functional && len(x.requires) > 0 {
 		// vacuity guard: the preconditions (with the axioms) must be satisfiable, and so must
 		// "the function returns" - a contradictory requires would make every obligation hold
@@ -435,6 +466,18 @@ func (x *X) discharge(timeout time.Duration, workers int) []*OblResult {
 						r.Status = "unknown"
 					}
 					continue
+				}
+				// second tier: quantifier-free by instantiation at the goal's array indices
+				mu.Lock()
+				inst := x.buildInstantiated(r.Obl)
+				mu.Unlock()
+				if inst != "" {
+					sri := Solve(inst, fmt.Sprintf("%s_%d_i", x.root, i), timeout)
+					r.Seconds += sri.Seconds
+					if sri.Status == "unsat" {
+						r.Status, r.Solver, r.Raw, r.Size = "discharged", sri.Solver+"(instantiated)", sri.Raw, len(inst)
+						continue
+					}
 				}
 				// retry with the quantified assumptions
 				mu.Lock()
@@ -744,6 +787,7 @@ func (w *World) collectInterestingTypes() {
 			add(sf.Body.Src)
 		}
 	}
+	sort.Slice(w.InterestingTypes, func(i, j int) bool { return typeKey(w.InterestingTypes[i]) < typeKey(w.InterestingTypes[j]) })
 }
 
 // solveByCases splits the obligation's path condition on its largest
@@ -773,8 +817,17 @@ func (x *X) solveByCases(o *Obligation, timeout time.Duration, mu *sync.Mutex, d
 		mu.Lock()
 		o2 := *o
 		o2.Guard = x.B.And(append(append([]*Term{}, others...), d)...)
+		inst := x.buildInstantiated(&o2)
 		full, _, _ := x.buildQuery(&o2, true, false)
 		mu.Unlock()
+		if inst != "" {
+			sri := Solve(inst, fmt.Sprintf("%s_case%d_%d_i", name, depth, k), timeout)
+			secs += sri.Seconds
+			if sri.Status == "unsat" {
+				solver = sri.Solver
+				continue
+			}
+		}
 		sr := Solve(full, fmt.Sprintf("%s_case%d_%d", name, depth, k), timeout)
 		secs += sr.Seconds
 		solver = sr.Solver
@@ -804,4 +857,215 @@ func (x *X) solveByCases(o *Obligation, timeout time.Duration, mu *sync.Mutex, d
 		return "unsat", solver, secs, nil, "all cases unsat"
 	}
 	return "unknown", solver, secs, nil, ""
+}
+
+// ---- quantifier-free tier by instantiation ---------------------------------
+//
+// Array-range facts ("forall k in [0,n): a[off+k] == ...") are what loop
+// invariants, copy/append semantics and window invariants look like here.
+// E-matching them inside large merged queries is unstable, so before the
+// solver sees any quantifier the generator does the one thing that is needed:
+// it skolemises a universally quantified goal and instantiates every
+// single-variable quantified assumption at the array indices that occur in
+// the goal and in the quantifier-free assumptions (v := index - G for a
+// pattern index v + G). Instances are consequences of the assumptions, so an
+// "unsat" answer of the resulting quantifier-free query is a proof.
+
+func (x *X) skolemize(t *Term) (*Term, bool) {
+	B := x.B
+	switch t.Op {
+	case "forall":
+		m := map[*Term]*Term{}
+		for _, bv := range t.Bound {
+			m[bv] = B.Fresh("sk_"+bv.Name, bv.Sort)
+		}
+		body := B.Subst(t.Args[0], m)
+		return x.skolemize(body)
+	case "=>":
+		c, ok := x.skolemize(t.Args[1])
+		if !ok {
+			return nil, false
+		}
+		return B.Implies(t.Args[0], c), !hasQuant(t.Args[0], map[*Term]bool{})
+	case "and":
+		var out []*Term
+		for _, a := range t.Args {
+			c, ok := x.skolemize(a)
+			if !ok {
+				return nil, false
+			}
+			out = append(out, c)
+		}
+		return B.And(out...), true
+	}
+	return t, !hasQuant(t, map[*Term]bool{})
+}
+
+// selectIndices collects the index terms of every select in t (ground ones).
+func (x *X) selectIndices(t *Term, seen map[*Term]bool, out map[*Term]bool) {
+	if seen[t] {
+		return
+	}
+	seen[t] = true
+	if t.Op == "forall" || t.Op == "exists" {
+		return
+	}
+	if t.Op == "select" && t.Args[1].Sort == IntSort && !x.B.hasBoundVar(t.Args[1]) {
+		out[t.Args[1]] = true
+	}
+	for _, a := range t.Args {
+		x.selectIndices(a, seen, out)
+	}
+}
+
+// linearIn: idx == v + G with G free of v; returns G.
+func (x *X) linearIn(idx, v *Term) (*Term, bool) {
+	B := x.B
+	if idx == v {
+		return B.Int(0), true
+	}
+	if idx.Op != "+" {
+		return nil, false
+	}
+	var rest []*Term
+	found := false
+	for _, a := range idx.Args {
+		if a == v && !found {
+			found = true
+			continue
+		}
+		if B.freeBound(a)[v] {
+			if g, ok := x.linearIn(a, v); ok && !found {
+				found = true
+				rest = append(rest, g)
+				continue
+			}
+			return nil, false
+		}
+		rest = append(rest, a)
+	}
+	if !found {
+		return nil, false
+	}
+	return B.Add(rest...), true
+}
+
+type qfact struct {
+	guards []*Term
+	v      *Term
+	body   *Term
+	offs   []*Term // the G of every pattern index v + G in body
+}
+
+func (x *X) parseQFact(t *Term) *qfact {
+	q := &qfact{}
+	for t.Op == "=>" {
+		q.guards = append(q.guards, t.Args[0])
+		t = t.Args[1]
+	}
+	if t.Op != "forall" || len(t.Bound) != 1 || t.Bound[0].Sort != IntSort {
+		return nil
+	}
+	q.v, q.body = t.Bound[0], t.Args[0]
+	if hasQuant(q.body, map[*Term]bool{}) {
+		return nil
+	}
+	seenG := map[*Term]bool{}
+	var walk func(u *Term)
+	visited := map[*Term]bool{}
+	walk = func(u *Term) {
+		if visited[u] {
+			return
+		}
+		visited[u] = true
+		if u.Op == "select" && x.B.freeBound(u.Args[1])[q.v] {
+			if g, ok := x.linearIn(u.Args[1], q.v); ok && !seenG[g] {
+				seenG[g] = true
+				q.offs = append(q.offs, g)
+			}
+		}
+		for _, a := range u.Args {
+			walk(a)
+		}
+	}
+	walk(q.body)
+	if len(q.offs) == 0 {
+		return nil
+	}
+	return q
+}
+
+// buildInstantiated returns a quantifier-free script for o, or "" when the
+// obligation is not of a shape this tier handles.
+func (x *X) buildInstantiated(o *Obligation) string {
+	B := x.B
+	cond, ok := x.skolemize(o.Cond)
+	if !ok {
+		return ""
+	}
+	goal := B.And(o.Guard, B.Not(cond))
+	var qf []*Term
+	var facts []*qfact
+	for _, a := range x.assums[:o.NAssum] {
+		t := B.Implies(a.Guard, a.Fact)
+		if t.IsTrue() {
+			continue
+		}
+		if hasQuant(t, map[*Term]bool{}) {
+			if q := x.parseQFact(t); q != nil {
+				facts = append(facts, q)
+			}
+			continue
+		}
+		qf = append(qf, t)
+	}
+	if len(facts) == 0 {
+		return ""
+	}
+	idx := map[*Term]bool{}
+	seen := map[*Term]bool{}
+	x.selectIndices(goal, seen, idx)
+	for _, t := range qf {
+		x.selectIndices(t, seen, idx)
+	}
+	var insts []*Term
+	done := map[[2]int]bool{}
+	for round := 0; round < 2 && len(insts) < 1500; round++ {
+		var order []*Term
+		for g := range idx {
+			order = append(order, g)
+		}
+		sort.Slice(order, func(i, j int) bool { return order[i].id < order[j].id })
+		var fresh []*Term
+		for fi, q := range facts {
+			for _, off := range q.offs {
+				for _, g := range order {
+					val := B.Sub(g, off)
+					key := [2]int{fi, val.id}
+					if done[key] {
+						continue
+					}
+					done[key] = true
+					inst := B.Subst(q.body, map[*Term]*Term{q.v: val})
+					for k := len(q.guards) - 1; k >= 0; k-- {
+						inst = B.Implies(q.guards[k], inst)
+					}
+					if inst.IsTrue() {
+						continue
+					}
+					insts = append(insts, inst)
+					fresh = append(fresh, inst)
+					if len(insts) >= 1500 {
+						break
+					}
+				}
+			}
+		}
+		for _, t := range fresh {
+			x.selectIndices(t, seen, idx)
+		}
+	}
+	asserts := append(append([]*Term{}, qf...), insts...)
+	asserts = append(asserts, goal)
+	return B.Script(asserts, "", false)
 }
